@@ -98,7 +98,8 @@ def incs():
 
 def _prune_cache(keep):
     try:
-        ds = [d for d in os.listdir(CACHE) if d.startswith('impl-') and d != keep]
+        pref = keep.split('-')[0] + '-'
+        ds = [d for d in os.listdir(CACHE) if d.startswith(pref) and d != keep]
         ds.sort(key=lambda d: os.path.getmtime(os.path.join(CACHE, d)))
         for d in ds[:-1]:
             shutil.rmtree(os.path.join(CACHE, d), ignore_errors=True)
@@ -290,10 +291,16 @@ def lean_side(prop_id, modules, theorems, thorough=False):
 SAN_ENV = {
     'ASAN_OPTIONS': 'detect_leaks=0:exitcode=99:abort_on_error=0:allocator_may_return_null=1:max_allocation_size_mb=1024:detect_stack_use_after_return=0',
     'UBSAN_OPTIONS': 'halt_on_error=1:exitcode=97:print_stacktrace=0',
+    'TSAN_OPTIONS': 'halt_on_error=1:exitcode=96:report_signal_unsafe=0',
 }
 
 
 def _san_kind(stderr):
+    m = re.search(r'WARNING: ThreadSanitizer: ([^(\n]+)', stderr)
+    if m:
+        fr = re.findall(r'#\d+ ([^\n]*?) (?:/|\()', stderr[m.end():m.end() + 3000])
+        fr = [f for f in fr if 'std::' not in f and '__' not in f][:2]
+        return 'TSAN:' + m.group(1).strip().replace(' ', '-') + ':' + '|'.join(f[:80].replace(' ', '_') for f in fr)
     m = re.search(r'ERROR: AddressSanitizer: ([\w-]+)', stderr)
     if m:
         return 'ASAN:' + m.group(1)
